@@ -136,7 +136,7 @@ def regex_shape(pat):
 class C16(Property):
     PID = 'C16'
     QUICK_BUDGET_S = 60
-    THOROUGH_BUDGET_S = 600
+    THOROUGH_BUDGET_S = 900
     RULE = ('a case is (t) a traceback text rendered by the harness from structured data: 0..n frames, each with '
             'file / line number / function / optional source line / optional position-marker line, a type name and '
             'an empty, one-line or multi-line message, with or without the final newline, handed over as str or as '
